@@ -36,7 +36,7 @@ import (
 
 // Sel selects intercepted operations. An operation matches when (Seq >= 0 and its sequence number is
 // Seq) or (Seq < 0 and Kind matches ("" or "*" = any kind) and every non-empty element of Args is a
-// substring of the corresponding path argument and it is the Occ-th (0-based) such match; Occ < 0 = every match).
+// substring of (or, when written "=<path>", equal to; when written "$<suffix>", a suffix of) the corresponding path argument and it is the Occ-th (0-based) such match; Occ < 0 = every match).
 type Sel struct {
 	Seq  int      `json:"seq"`
 	Kind string   `json:"kind,omitempty"`
@@ -137,7 +137,18 @@ func (s *Sel) matches(idx int, n int, kind string, args []string) bool {
 		if a == "" {
 			continue
 		}
-		if i >= len(args) || !strings.Contains(args[i], a) {
+		if i >= len(args) {
+			return false
+		}
+		if strings.HasPrefix(a, "=") {
+			if args[i] != a[1:] {
+				return false
+			}
+		} else if strings.HasPrefix(a, "$") {
+			if !strings.HasSuffix(args[i], a[1:]) {
+				return false
+			}
+		} else if !strings.Contains(args[i], a) {
 			return false
 		}
 	}
